@@ -92,11 +92,27 @@ def binder_sequences():
     return out
 
 
+def internal_name_sequences():
+    """a top-level variable named like a name an operator implementation binds for itself (`default`, `iterator`, `func`,
+    `res`, ..), an operator run in the next input, the variable read in the one after: the REPL route looks the name up in the
+    interpreter, the batch route has folded it"""
+    from props import c06
+    seqs = []
+    ops = c06.internal_ops()
+    for w in c06.operator_internal_names():
+        if w == "r":
+            continue
+        for on, mk in ops.items():
+            e = mk()
+            seqs.append((["%s := 7" % w, ("r := %s" % A.src(e)) if e[0] != "for" else A.src(e), "%s + 1" % w], w))
+    return seqs
+
+
 def run(res, tier, seed, broken_model):
     rnd = random.Random(seed)
     nseq = 60 if tier == "quick" else 1500
     lines, metas = [], []
-    sequences = list(binder_sequences())
+    sequences = list(binder_sequences()) + internal_name_sequences()
     for _ in range(nseq):
         n = rnd.randint(2, 7)
         try:
